@@ -157,7 +157,12 @@ def enum_of(L, case):
 
 def dest_args(L, case):
     a, i = case.get("dev", 5), case.get("inst", 0)
-    if case.get("as_int"):
+    form = case.get("as_int")
+    if form == "dev":            # mixed forms: one of the two as a plain int, the other as an address object
+        return a, L["address"].InstanceNumber(i)
+    if form == "inst":
+        return L["address"].DeviceShort(a), i
+    if form:
         return a, i
     return L["address"].DeviceShort(a), L["address"].InstanceNumber(i)
 
@@ -1054,7 +1059,7 @@ def input_st(draw):
                                                                  0xAAAAAAAA & top, 0x01020304 & top, 0x80808080 & top])))
     filler = draw(st.one_of(st.just("repeat"), st.integers(0, 0xFF), st.sampled_from([0, 0xFF, 0x55, 0xAA])))
     return {"kind": "input", "res": res, "value": value, "pass_res": draw(st.booleans()), "filler": filler,
-            "dev": draw(st.integers(0, 63)), "inst": draw(st.sampled_from([0, 0, 1, 5, 30])), "as_int": draw(st.booleans()),
+            "dev": draw(st.integers(0, 63)), "inst": draw(st.sampled_from([0, 0, 1, 5, 30])), "as_int": draw(st.sampled_from([False, True, "dev", "inst"])),
             "next": draw(st.one_of(st.none(), st.integers(0, top))), "fault": draw(fault_st())}
 
 
@@ -1071,7 +1076,7 @@ def gen_bits_st(draw):
 def filter_st(draw):
     which = draw(st.sampled_from(["gen", "gen", "gen", "pushbutton", "occupancy", "light", "int"]))
     case = {"enum": which, "dev": draw(st.integers(0, 63)), "inst": draw(st.sampled_from([0, 0, 2, 31])),
-            "as_int": draw(st.booleans()), "fault": draw(fault_st())}
+            "as_int": draw(st.sampled_from([False, True, "dev", "inst"])), "fault": draw(fault_st())}
     if which == "gen":
         case["bits"] = draw(gen_bits_st())
         positions = case["bits"]
@@ -1110,7 +1115,7 @@ def scheme_st(draw):
     s = draw(st.one_of(st.integers(0, 4), st.integers(0, 4), st.integers(5, 255), st.sampled_from([-1, 256, 257, 1000, -128])))
     return {"kind": "scheme", "scheme": s, "as_enum": draw(st.booleans()), "initial": draw(st.integers(0, 4)),
             "refuse": draw(st.lists(st.integers(0, 4), unique=True, max_size=2)), "stale0": draw(st.sampled_from([0, 3, 0xFF])),
-            "dev": draw(st.integers(0, 63)), "inst": draw(st.sampled_from([0, 0, 3, 31])), "as_int": draw(st.booleans()),
+            "dev": draw(st.integers(0, 63)), "inst": draw(st.sampled_from([0, 0, 3, 31])), "as_int": draw(st.sampled_from([False, True, "dev", "inst"])),
             "fault": draw(fault_st())}
 
 
